@@ -160,6 +160,7 @@ class FakeSocket(object):
         self.log = []
         self.closed = False
         self.shuts = []
+        self.shutdown_error = None     # errno that shutdown() fails with (ENOTCONN once the peer has reset the connection)
         self.blocking = True
         self.timeout = None
         self.opts = {}
@@ -283,6 +284,8 @@ class FakeSocket(object):
         self._alive("shutdown", how)
         self.shuts.append(how)
         self.log.append(("shutdown", how))
+        if self.shutdown_error is not None:
+            raise oserr(self.shutdown_error)
 
     def close(self):
         self.closed = True
